@@ -47,7 +47,7 @@ PROP_UNITS = {
                           'return g = gcd with lhs*a + rhs*b == g, |b| < lhs, exact lengths; primitive::lowest_dword; '
                           'Buffer::from / into_boxed_slice; <[T]>::fill; inv() of single/double-word rings (num_modular) '
                           'and the Div operators (inv + mul dispatch, panic on None) are not under contract',
-                          'int_modmul ASSUMES (//@@ SIG, trusted contracts): mul::multiply and sqr::sqr return the exact product, '
+                          'int_modmul uses via //@@ SIG the PROVED contracts of mul::multiply and sqr::sqr (exact product; units int_mul_dispatch, int_sqr) and ASSUMES: '
                           'div::div_rem_in_place returns lhs == q*rhs + r with r < rhs (proved for the schoolbook branch in unit '
                           'int_div_ops); Memory::allocate_slice_fill, Box deref/eq (lib/mod2_mem.rs); cmp_same_len; the '
                           'scratch-memory SIZING (mul_memory_requirement) is not verified',
